@@ -266,8 +266,22 @@ def write_log(spec: dict[str, Any], directory: Path, name: str) -> Written:
     close_error = None
     intended: list[list[str] | None] = []
     shared: dict[tuple[str, ...], list[str]] = {}
+    other_lg = other_handler = None
+    other_span = (len(recs) // 3, max(len(recs) // 3 + 1, 2 * len(recs) // 3)) if spec.get("other_log") else None
     try:
         for i, r in enumerate(recs):
+            if other_span is not None and i == other_span[0]:
+                # a second compressed log of the same process is opened while this one is in use (a command that
+                # drives another command, two scanners in one script: gallia keeps a list of log file handlers)
+                other_lg = glog.get_logger("c17other")
+                other_lg.setLevel(1)
+                other_lg.propagate = False
+                other_handler = glog.add_zst_log_handler("c17other", directory / f"{name}.other.zst", Loglevel.TRACE)
+            if other_span is not None and i == other_span[1] and other_handler is not None:
+                glog.remove_zst_log_handler("c17other", other_handler)
+                other_handler = None
+            if other_handler is not None and other_lg is not None:
+                other_lg.info(f"record of the other log {i} " + "x" * (37 * i % 500))
             msg = f"{r['msg'][: len(r['msg']) // 2]}{MARK_L}{i + 1}{MARK_R}{r['msg'][len(r['msg']) // 2:]}"
             if r["args"] is not None and "%" in msg:
                 # keep the marker out of the %-directives
@@ -296,6 +310,11 @@ def write_log(spec: dict[str, Any], directory: Path, name: str) -> Written:
     finally:
         if gate is not None:
             gate.set()
+        if other_handler is not None:
+            try:
+                glog.remove_zst_log_handler("c17other", other_handler)
+            except Exception:  # noqa: BLE001
+                pass
         try:
             glog.remove_zst_log_handler(LOGGER, handler)
         except Exception as e:  # noqa: BLE001  (judged through what can be read back)
